@@ -37,7 +37,20 @@ What the misses had in common, and the general lesson applied across checks:
 * *an observation treated as "not demanded"* although the unchanged tree does enforce it (C06 non-canonical hash
   spellings): demanded now, because the statement ("succeeds exactly when the hash was computed from…") covers it;
 * *freshly built component per case, result compared at once* (C18/C20 shared context slice): components are reused across
-  cases and every retained result is verified again after later calls.
+  cases and every retained result is verified again after later calls;
+* *nothing was ever asked twice* (rounds 3-4: memos keyed by too little, pooled structs, caches filled before a check): the
+  history runner re-applies operations to the same state, parsers see each request in both modes, one JWS / JWK object /
+  decoder variable is used for two different things in a row, and related inputs (mirror point, relabelled curve, re-typed
+  anchor origin, nonce-only successor) follow each other inside one process;
+* *inputs built from Go values only* (swapped JSON decoders, UseNumber, duplicate members, trailing data): raw JSON text routes
+  (re-spelled numbers and escapes, duplicate / case-variant member names, trailing bytes, white space) next to the value routes;
+* *limits and ranges sampled in the comfortable middle* (sizes, lengths, times, codes): exact-limit configurations derived from
+  the input itself, complete sweeps of small spaces (multihash codes, bytes after a backslash), whole-range integers
+  (negative and zero times, 2^63 neighbours, lengths beyond 2^8 and 2^16), largest accepted documents;
+* *only the shipped configuration* (four key types, one hash algorithm per chain, default validators): all five key types,
+  algorithm migration inside a chain, hostile request-time validators, windows in every combination;
+* *a hang ended as "inconclusive"* (C20 recursive read lock): lock-ups of the registries are detected inside the case with the
+  goroutine dump as witness, and a C20 case timeout is a violation.
 
 | name | property | change | needs to manifest | caught by (quick tier) — note |
 |---|---|---|---|---|
